@@ -29,6 +29,7 @@ func init() {
 		},
 		Real:       append(append([]string{}, realAll...), "db/fs (compiled against the simulated os)", "db/postgres"),
 		Stub:       append(append([]string{}, stubAll...), "reference model refvm (oracle)", "OS filesystem (simfs)", "Postgres server (pgfake)"),
+		HangIsViolation: true, // the property promises that requests are served
 		FaultKinds: []string{"restart", "ext_terminate", "ext_error", "ext_flags", "client_garbage"},
 	})
 }
